@@ -98,6 +98,9 @@ interface exp {
   absorb: func(e: error-context, l: list<error-context>, keep: u32) -> u32;
   relay: func(e: error-context, keep: bool) -> option<error-context>;
   recall: func() -> u32;
+  census: func(n: u32) -> map<u32, u64>;
+  roster: func(n: u32) -> map<string, list<u8>>;
+  tally: func(m: map<u32, u64>) -> u64;
 }
 
 // the exported resource reached through `use` and through a type alias
